@@ -2,7 +2,7 @@
 From Coq Require Import ZArith List Bool Arith String.
 Import ListNotations.
 From TD Require Import Model.C11_Layout Model.C11_Tree Model.C11_Formats
-  Proofs.C11_LayoutP Proofs.C11_TreeP Proofs.C11_HistP Proofs.C11_WriteP Proofs.C11_FormatsP Proofs.C11_ReorderP Proofs.C11_LockP.
+  Proofs.C11_LayoutP Proofs.C11_TreeP Proofs.C11_AuxP Proofs.C11_PickleP Proofs.C11_HistP Proofs.C11_WriteP Proofs.C11_FormatsP Proofs.C11_ReorderP Proofs.C11_LockP.
 Open Scope nat_scope.
 
 (* ================================================================= 1. the byte layout (ALL leaf lists, any padding unit) *)
@@ -24,11 +24,18 @@ Theorem C11_storage_size : forall A np ls, Forall wf_leaf ls -> List.length (enc
 Proof. exact encode_length. Qed.
 Print Assumptions C11_storage_size.
 
-(* alignment: `.view(dtype)` needs start mod element_size = 0.  FALSE of the code as it is (padding unit 8, 16-byte elements) *)
-Definition C11_layout_aligned_full_statement : Prop := aligned_statement 8.
-Theorem C11_layout_aligned_refuted : ~ aligned_statement 8.
+(* alignment (fix: D11, padding unit 16): `.view(dtype)` needs start mod element_size = 0 -- TRUE for every leaf list over the
+   supported element sizes 1, 2, 4, 8, 16 *)
+Theorem C11_layout_aligned : forall ls i sg l,
+  Forall (fun l => supported (sp_esz l) = true) ls ->
+  nth_error (layout true ls) i = Some sg -> nth_error ls i = Some l -> s_start sg mod sp_esz l = 0.
+Proof. exact layout_aligned. Qed.
+Print Assumptions C11_layout_aligned.
+
+(* ... and the former padding unit 8 could not do it (uint8[8] followed by complex128): why the repair pads to 16 *)
+Theorem C11_layout_unit8_insufficient : ~ aligned_statement 8.
 Proof. exact layout_aligned_refuted. Qed.
-Print Assumptions C11_layout_aligned_refuted.
+Print Assumptions C11_layout_unit8_insufficient.
 
 (* ... true for every element size that divides the padding unit (1, 2, 4, 8 today; also 16 once the unit is 16) *)
 Theorem C11_layout_aligned_partial : forall A ls, 0 < A -> forall i sg l,
@@ -67,9 +74,9 @@ Proof. exact splice_encode. Qed.
 Print Assumptions C11_write_through.
 
 (* ================================================================= 2. consolidate / consolidated rebuild on trees *)
-(* consolidate(): same keys, order, tensors, non-tensor data, batch sizes, names, device -- but never locked (D110) *)
+(* consolidate(): same keys, order, tensors, non-tensor data, batch sizes, names, device and (fix: D110) lock state *)
 Theorem C11_consolidate_content : forall A np t st, tree_side A np t -> consolidate_tree A np false t = Ok st ->
-  unview_t (cur st) = setlock_t false (unview_t t).
+  unview_t (cur st) = unview_t t.
 Proof. exact consolidate_content. Qed.
 Print Assumptions C11_consolidate_content.
 
@@ -82,15 +89,11 @@ Theorem C11_rebuild_consolidated : forall A np t pre post pl, Forall wf_leaf pre
 Proof. intros A np. exact (proj1 (rebuild_ok A np)). Qed.
 Print Assumptions C11_rebuild_consolidated.
 
-Theorem C11_consolidate_16byte_refuted :
-  wf_t t_d11 = true /\ no_reserved_t t_d11 = true /\ sizes_ok 8 true (flat t_d11) = true /\
-  consolidate_tree 8 true false t_d11 = Raised EView.
-Proof. exact consolidate_16byte_refuted. Qed.
-Print Assumptions C11_consolidate_16byte_refuted.
-
 (* ================================================================= 3. pickle / deepcopy in histories *)
+(* the full statement; after fix: D12 it follows from (f) + (e) + C11_reorder_lookup as soon as the storage of a current
+   snapshot holds the bytes of the current tensors (aliasing: proved for (b), (c); checked against the code otherwise) *)
 Definition C11_pickle_history_full_statement : Prop :=
-  forall t ops, tree_side 8 true t ->
+  forall t ops, tree_side align_unit true t ->
     let st := run {| cur := t; snap := None |} ops in
     exists st', pickle_roundtrip st = Ok st' /\
       forall path k, leaf_at (cur st') path k = leaf_at (cur st) path k
@@ -111,62 +114,48 @@ Theorem C11_pickle_unconsolidated_all : forall t ops,
 Proof. exact pickle_unconsolidated_all. Qed.
 Print Assumptions C11_pickle_unconsolidated_all.
 
-(* (b) freshly consolidated, nothing locked: the copy is the consolidated tensordict, keys regrouped *)
-Theorem C11_pickle_fresh_partial : forall A np t st, tree_side A np t -> unlocked_t t = true ->
-  consolidate_tree A np false t = Ok st ->
+(* (b) freshly consolidated (lock state included): the copy is the consolidated tensordict, keys regrouped *)
+Theorem C11_pickle_fresh : forall t st, tree_side align_unit true t -> lock_closed_t t = true ->
+  consolidate_tree align_unit true false t = Ok st ->
   pickle_roundtrip st = Ok {| cur := reorder_t (cur st); snap := snap st |}.
-Proof. exact pickle_fresh_partial. Qed.
-Print Assumptions C11_pickle_fresh_partial.
+Proof. exact pickle_fresh. Qed.
+Print Assumptions C11_pickle_fresh.
 
 (* (c) consolidated, then ANY history of in-place writes (set_ / copy_ / update_ at any depth): the writes go through the
-   storage and the copy is the tensordict as it is at the moment of the call *)
-Theorem C11_pickle_inplace_history : forall A np t st0 ws, tree_side A np t -> unlocked_t t = true ->
-  consolidate_tree A np false t = Ok st0 -> forallb is_write ws = true ->
+   storage, the snapshot stays current, and the copy is the tensordict as it is at the moment of the call *)
+Theorem C11_pickle_inplace_history : forall t st0 ws, tree_side align_unit true t -> lock_closed_t t = true ->
+  consolidate_tree align_unit true false t = Ok st0 -> forallb is_write ws = true ->
   let st := run st0 ws in
   pickle_roundtrip st = Ok {| cur := reorder_t (cur st); snap := snap st |}.
 Proof. exact pickle_inplace_history. Qed.
 Print Assumptions C11_pickle_inplace_history.
 
-(* (d) what the copy of a consolidated tensordict is in general: the SOURCE as it was when consolidate() ran *)
-Theorem C11_pickle_of_consolidated : forall A np tofile t st, tree_side A np t ->
-  consolidate_tree A np tofile t = Ok st ->
-  pickle_roundtrip st = Ok {| cur := reorder_t (relock_t false (fst (mark_t A np t 0))); snap := snap st |}.
-Proof. exact pickle_of_consolidated. Qed.
-Print Assumptions C11_pickle_of_consolidated.
+(* (d) fix: D12, ANY state: a snapshot that no longer describes the object (metadata recomputed now differs, or some tensor
+   is not the view at its offset) is not used: the copy is made from the object itself and does not carry the snapshot *)
+Theorem C11_pickle_stale_snapshot : forall st sn, snap st = Some sn -> snapshot_current st sn = false ->
+  pickle_roundtrip st = Ok {| cur := unview_t (relock_t false (cur st)); snap := None |}.
+Proof. exact pickle_stale_snapshot. Qed.
+Print Assumptions C11_pickle_stale_snapshot.
 
-(* (e) the full statement is false (D12): an out-of-place write and a new key after consolidate() are not in the copy *)
-Theorem C11_pickle_after_mutation_refuted :
-  exists t ops, tree_side 8 true t /\
-    let st := run {| cur := t; snap := None |} ops in
-    exists st', pickle_roundtrip st = Ok st' /\
-      leaf_at (cur st) [] "a" = Some (i32 1) /\ leaf_at (cur st') [] "a" = Some (i32 0) /\
-      leaf_at (cur st) [] "c" = Some (i32 1) /\ leaf_at (cur st') [] "c" = None.
-Proof. exact pickle_after_mutation_refuted. Qed.
-Print Assumptions C11_pickle_after_mutation_refuted.
+(* (f) fix: D12 -- EVERY history (consolidations, in-place and structural mutations, locks, names, in any order): whenever
+   the snapshot is absent or no longer current at the moment of the call, the copy is the object itself *)
+Theorem C11_pickle_history_stale : forall t ops,
+  lock_closed_t t = true -> forallb op_closed ops = true ->
+  let st := run {| cur := t; snap := None |} ops in
+  (match snap st with None => True | Some sn => snapshot_current st sn = false end) ->
+  pickle_roundtrip st = Ok {| cur := unview_t (cur st); snap := None |} \/
+  (snap st = None /\ pickle_roundtrip st = Ok st).
+Proof. exact pickle_history_stale. Qed.
+Print Assumptions C11_pickle_history_stale.
 
-(* (f) lock state: consolidate() drops it, the pickled copy has the source's (D110) *)
-Theorem C11_consolidate_lock_refuted :
-  exists t, tree_side 8 true t /\ m_locked (meta t) = true /\
-    exists st st', consolidate_tree 8 true false t = Ok st /\ m_locked (meta (cur st)) = false /\
-                   pickle_roundtrip st = Ok st' /\ m_locked (meta (cur st')) = true.
-Proof. exact consolidate_lock_refuted. Qed.
-Print Assumptions C11_consolidate_lock_refuted.
-
-(* (g) device after consolidate(filename) (D114) *)
-Theorem C11_file_device_refuted :
-  exists t, tree_side 8 true t /\ m_dev (meta t) = None /\
-    exists st st', consolidate_tree 8 true true t = Ok st /\ m_dev (meta (cur st)) = Some 0 /\
-                   pickle_roundtrip st = Ok st' /\ m_dev (meta (cur st')) = None.
-Proof. exact file_device_refuted. Qed.
-Print Assumptions C11_file_device_refuted.
-
-(* (h) a nested tensordict named like a field of the metadata dict (D115) *)
-Theorem C11_reserved_key_refuted :
-  wf_t t_d115 = true /\ sizes_ok 8 true (flat t_d115) = true /\ aligned_at 8 true 0 (lspecs (flat t_d115)) = true /\
-  exists st st', consolidate_tree 8 true false t_d115 = Ok st /\ pickle_roundtrip st = Ok st' /\
-    leaf_at (cur st) ["size"%string] "a" = Some (i32 2) /\ sub_at (cur st') ["size"%string] = None.
-Proof. exact reserved_key_refuted. Qed.
-Print Assumptions C11_reserved_key_refuted.
+(* (e) ANY state whose snapshot is current: the consolidated rebuild is the object itself, keys regrouped -- provided the
+   storage holds the bytes of the current tensors (they are views of it; this aliasing fact is proved for the histories of
+   (b) and (c) and checked byte for byte against the implementation on every generated history) *)
+Theorem C11_pickle_current_snapshot : forall st sn, snap st = Some sn -> snapshot_current st sn = true ->
+  sn_storage sn = encode align_unit true (flat (cur st)) -> tree_side align_unit true (cur st) -> lock_closed_t (cur st) = true ->
+  pickle_roundtrip st = Ok {| cur := reorder_t (cur st); snap := snap st |}.
+Proof. exact pickle_current_snapshot. Qed.
+Print Assumptions C11_pickle_current_snapshot.
 
 (* regrouping the keys changes nothing that is looked up by key *)
 Theorem C11_reorder_lookup : forall t, nodup_t t = true ->
@@ -199,7 +188,8 @@ Theorem C11_state_dict_roundtrip : forall t g, like_t t g = true -> nodup_t g = 
 Proof. exact state_dict_roundtrip. Qed.
 Print Assumptions C11_state_dict_roundtrip.
 
-(* numpy structured arrays: the packed record is readable back iff every field size divides the record size (D111) *)
+(* numpy structured arrays: a field of the packed record can be viewed without a copy iff its size divides the record size
+   (fix: D111 -- from_struct_array copies the other fields) *)
 Theorem C11_struct_fields_partial : forall sizes e, Forall (fun s => s = e) sizes -> 0 < e ->
   forallb (fun s => record_size sizes mod s =? 0) sizes = true.
 Proof. exact struct_fields_partial. Qed.
@@ -212,14 +202,14 @@ Print Assumptions C11_struct_fields_refuted.
 
 (* ================================================================= non-vacuity *)
 Example C11_ex_layout : layout true [ {| sp_esz := 2; sp_shape := [3] |}; {| sp_esz := 8; sp_shape := [2] |}; {| sp_esz := 1; sp_shape := [0; 4] |} ]
-  = [ {| s_start := 0; s_stop := 8; s_pad := 2 |}; {| s_start := 8; s_stop := 24; s_pad := 0 |}; {| s_start := 24; s_stop := 24; s_pad := 0 |} ].
+  = [ {| s_start := 0; s_stop := 16; s_pad := 10 |}; {| s_start := 16; s_stop := 32; s_pad := 0 |}; {| s_start := 32; s_stop := 32; s_pad := 0 |} ].
 Proof. reflexivity. Qed.
 
 Definition ex_tree : tree :=
   Node (m3 false) (FLeaf "z" (i32 7) None (FSub "n" (Node (m3 false) (FNonT "s" 1 [3] (FLeaf "b" (i32 2) None FNil))) (FLeaf "a" (i32 1) None FNil))).
-Example C11_ex_side : tree_side 8 true ex_tree /\ unlocked_t ex_tree = true /\ coherent_t ex_tree = true /\ nodup_t ex_tree = true.
+Example C11_ex_side : tree_side align_unit true ex_tree /\ lock_closed_t ex_tree = true /\ coherent_t ex_tree = true /\ nodup_t ex_tree = true.
 Proof. repeat split; reflexivity. Qed.
-Example C11_ex_consolidate : exists st, consolidate_tree 8 true false ex_tree = Ok st /\ List.length (sn_storage (match snap st with Some s => s | None => {| sn_meta := MNode m0 [] [] MNil; sn_storage := [] |} end)) = 48.
+Example C11_ex_consolidate : exists st, consolidate_tree align_unit true false ex_tree = Ok st /\ List.length (sn_storage (match snap st with Some s => s | None => {| sn_meta := MNode m0 [] [] MNil; sn_storage := [] |} end)) = 48.
 Proof. eexists. split; [vm_compute; reflexivity|reflexivity]. Qed.
 Example C11_ex_inplace : forallb is_write [OWrite ["n"%string] "b" (l_bytes (i32 9)); OWrite [] "a" (l_bytes (i32 4))] = true.
 Proof. reflexivity. Qed.
